@@ -141,7 +141,8 @@ MAX_ITER = 400
 
 
 _BUILTINS = {"range": range, "int": int, "str": str, "len": len, "bool": bool, "abs": abs, "divmod": divmod, "min": min, "max": max, "round": round,
-             "float": float, "any": any, "all": all, "sum": sum, "sorted": sorted, "tuple": tuple, "list": list}
+             "float": float, "any": any, "all": all, "sum": sum, "sorted": sorted, "tuple": tuple, "list": list, "enumerate": lambda *a, **k: list(enumerate(*a, **k)),
+             "zip": lambda *a: list(zip(*a)), "reversed": lambda x: list(reversed(x)), "set": set, "frozenset": frozenset, "repr": repr, "pow": pow, "chr": chr, "ord": ord}
 _STR_METHODS = {"startswith", "endswith", "split", "replace", "zfill", "ljust", "rjust", "strip", "lstrip", "rstrip", "upper", "lower",
                 "find", "count", "isdigit", "partition", "rpartition", "join", "format"}
 
@@ -329,6 +330,13 @@ def ev(n: ast.AST, env: dict[str, Any], funcs: dict[str, ast.FunctionDef] | None
     raise Unsupported(f"expression `{un(n)[:50]}`")
 
 
+def copy_load(t: ast.AST) -> ast.AST:
+    """the same subscript / attribute expression in load context"""
+    if isinstance(t, ast.Subscript):
+        return ast.Subscript(t.value, t.slice, ast.Load())
+    return ast.Attribute(t.value, t.attr, ast.Load())
+
+
 def bind(t: ast.AST, v: Any, env: dict[str, Any]) -> None:
     if isinstance(t, ast.Name):
         env[t.id] = v
@@ -367,8 +375,12 @@ def run(stmts: list[ast.stmt], env: dict[str, Any], funcs: dict[str, ast.Functio
             if s.value is not None:
                 bind(s.target, ev(s.value, env, funcs, depth), env)
         elif isinstance(s, ast.AugAssign):
-            cur = ev(ast.Name(s.target.id, ast.Load()), env, funcs, depth) if isinstance(s.target, ast.Name) else None
-            if cur is None and not isinstance(s.target, ast.Name):
+            if isinstance(s.target, ast.Name):
+                cur = ev(ast.Name(s.target.id, ast.Load()), env, funcs, depth)
+            elif isinstance(s.target, (ast.Subscript, ast.Attribute)):
+                load = copy_load(s.target)
+                cur = ev(load, env, funcs, depth)
+            else:
                 raise Unsupported("augmented assignment target")
             bind(s.target, ev(ast.BinOp(ast.Constant(cur), s.op, s.value), env, funcs, depth), env)
         elif isinstance(s, ast.If):
@@ -499,3 +511,40 @@ def call(fn: ast.FunctionDef, args: list[Any], kws: dict[str, Any] | None = None
     except _Return as r:
         return env.get("$yielded", []) if is_gen else r.value
     return env.get("$yielded", []) if is_gen else None
+
+
+def module_consts(m) -> dict[str, Any]:
+    """the constant environment of an analysed module for the interpreter: names imported from pendulum.constants and the module's
+    own top-level assignments whose value folds to a literal (numbers, strings, tuples, lists, dicts of those) - `core.fold`, the
+    checker's constant folder; nothing is imported or executed"""
+    from .. import core as _core
+    out: dict[str, Any] = {}
+    for st in m.tree.body:
+        if isinstance(st, ast.ImportFrom) and st.module == "pendulum.constants":
+            for a in st.names:
+                try:
+                    out[a.asname or a.name] = _core.const("constants", a.name)
+                except Exception:       # noqa: BLE001
+                    pass
+    for st in m.top():
+        tgt = st.targets[0] if isinstance(st, ast.Assign) and len(st.targets) == 1 else st.target if isinstance(st, ast.AnnAssign) else None
+        if isinstance(tgt, ast.Name) and getattr(st, "value", None) is not None:
+            try:
+                v = _core.fold(st.value, m)
+            except Exception:       # noqa: BLE001
+                continue
+            if _plain(v):
+                out[tgt.id] = v
+    return out
+
+
+def _plain(v, depth: int = 0) -> bool:
+    if isinstance(v, (int, float, str, bool, type(None))):
+        return True
+    if depth > 4:
+        return False
+    if isinstance(v, (tuple, list, set, frozenset)):
+        return all(_plain(x, depth + 1) for x in v)
+    if isinstance(v, dict):
+        return all(_plain(k, depth + 1) and _plain(x, depth + 1) for k, x in v.items())
+    return False
